@@ -56,11 +56,14 @@ type config struct {
 	byz     int // a Byzantine frame is inserted before the next honest action
 	reorder int // a frame overtakes a pending mux delivery
 	shuffle int // honest actions are taken out of order
+	// C02 part only: process faults of the validator under test, percent per generator action
+	restart     int
+	maxRestarts int
 }
 
 func (c *config) clean() bool { return c.byz == 0 && c.reorder == 0 && c.shuffle == 0 }
 
-func drawConfig(c *kit.Chooser) *config {
+func drawConfig(c *kit.Chooser, mode string) *config {
 	cfg := &config{maxSteps: 200}
 	cfg.nVals = 5 + c.Intn("nvals", 5) // 5..9
 	keys := chainkit.Keys()
@@ -130,6 +133,12 @@ func drawConfig(c *kit.Chooser) *config {
 		cfg.reorder = 10 * c.Intn("reorder-rate", 4)
 		cfg.shuffle = 10 * c.Intn("shuffle-rate", 4)
 	}
+	if mode == "C02" {
+		// the same streams, plus crash/restart and pause/resume of the validator under test
+		cfg.restart = 2 + c.Intn("restart-rate", 4)
+		cfg.maxRestarts = 3
+		cfg.maxSteps = 260
+	}
 	return cfg
 }
 
@@ -153,18 +162,26 @@ type commitRec struct {
 }
 
 type world struct {
-	r     *kit.Run
-	c     *kit.Chooser
-	cfg   *config
-	yp    *params.YouParams
-	chain *synthChain
-	fg    *forge
-	srv   *ucon.Server
-	ver   *ucon.Server // independent verifier (never started)
-	mux   *event.TypeMux
-	me    *chainkit.ValKey
-	peers []*chainkit.ValKey // members of the main set other than me
-	outs  []*chainkit.ValKey // keys that are members of no set
+	mode       string // "C03": the tally oracle reports; "C02": the own-vote history oracle reports
+	r          *kit.Run
+	c          *kit.Chooser
+	cfg        *config
+	disk       *simdisk.Disk
+	inc        int // incarnation of the validator under test
+	hist       *history
+	life       int  // 1 + number of restarts so far (for traces)
+	afterFault bool // the next plan follows a restart/resume
+	armed      bool // a crash at the next disk write is armed
+	nRestarts  int
+	yp         *params.YouParams
+	chain      *synthChain
+	fg         *forge
+	srv        *ucon.Server
+	ver        *ucon.Server // independent verifier (never started)
+	mux        *event.TypeMux
+	me         *chainkit.ValKey
+	peers      []*chainkit.ValKey // members of the main set other than me
+	outs       []*chainkit.ValKey // keys that are members of no set
 
 	obMu    sync.Mutex
 	outbox  []interface{}
@@ -187,9 +204,15 @@ type world struct {
 	unknown int // counter for unknown block hashes
 }
 
-// Run is one simulated execution.
-func Run(r *kit.Run) {
-	cfg := drawConfig(r.C)
+// Run is one simulated execution of the C03 part.
+func Run(r *kit.Run) { runMode(r, "C03") }
+
+// RunC02 is one simulated execution of the C02 part: the same generated streams plus
+// crash/restart and pause/resume of the validator under test, judged by the history of its own votes.
+func RunC02(r *kit.Run) { runMode(r, "C02") }
+
+func runMode(r *kit.Run, mode string) {
+	cfg := drawConfig(r.C, mode)
 	oldRand := crand.Reader
 	crand.Reader = kit.NewStream(r.Seed, r.Index)
 	oldTimers := ucon.SimTimers
@@ -208,7 +231,7 @@ func Run(r *kit.Run) {
 		params.Versions[params.YouV5] = oldYP
 		logging.SimCrit = nil
 	}()
-	w := &world{r: r, c: r.C, cfg: cfg, yp: &yp}
+	w := &world{mode: mode, r: r, c: r.C, cfg: cfg, yp: &yp}
 	err := kit.Bubble(w.run)
 	if err != nil {
 		panic(fmt.Sprintf("voterworld: %v", err))
@@ -248,29 +271,14 @@ func (w *world) run() {
 	if w.ver, err = ucon.NewVRFServer(simdisk.NewNoLog()); err != nil {
 		panic(err)
 	}
-	if w.srv, err = ucon.NewVRFServer(simdisk.NewNoLog()); err != nil {
-		panic(err)
+	w.hist = newHistory(w)
+	if w.mode == "C02" {
+		w.disk = simdisk.New() // with write log: crash points at the k-th write
+	} else {
+		w.disk = simdisk.NewNoLog()
 	}
-	if err = w.srv.SetValKey(w.me.Priv, w.me.BlsSkRaw); err != nil {
-		panic(err)
-	}
-	w.mux = new(event.TypeMux)
-	w.mux.SimAttach(func(ev interface{}) {
-		w.obMu.Lock()
-		w.outbox = append(w.outbox, ev)
-		w.obMu.Unlock()
-	})
-	// ucon.go:159 — exactly what a validator node does at start-up
-	if err = w.srv.StartMining(w.chain, inserter{w}, w.mux); err != nil {
-		panic("voterworld: StartMining: " + err.Error())
-	}
-	kit.Wait()
+	w.boot()
 	defer w.shutdown()
-	// the first context event was posted before the subscribers existed; hand it out in order
-	w.observe(w.drain(), nil)
-	for len(w.pending) > 0 {
-		w.deliverNext()
-	}
 
 	for int(r.Steps) < cfg.maxSteps && !w.stop {
 		overtake := false
@@ -284,6 +292,9 @@ func (w *world) run() {
 				continue
 			}
 			overtake = true
+		}
+		if w.processFault() {
+			continue
 		}
 		act := w.nextAction(overtake)
 		if act == nil {
@@ -361,6 +372,112 @@ func (w *world) stimulus(what string, in *voteTruth, f func()) {
 		w.r.Probe("stimulus-blocked")
 	}
 	w.observe(w.drain(), in)
+	if w.armed && w.disk.Frozen() {
+		w.armed = false
+		w.r.Fault("crash.at-next-vote-record")
+		w.r.Logf("CRASH inside %s: the process died right after disk write %d (what was posted afterwards never left the node)", what, w.disk.LogLen())
+		w.restart()
+	}
+}
+
+// boot starts the validator under test on w.disk exactly as a node does at start-up
+// (NewVRFServer, SetValKey, StartMining: ucon.go:100,111,159).
+func (w *world) boot() {
+	var err error
+	w.inc++
+	w.life++
+	inc, disk := w.inc, w.disk
+	if w.srv, err = ucon.NewVRFServer(disk); err != nil {
+		panic(err)
+	}
+	if err = w.srv.SetValKey(w.me.Priv, w.me.BlsSkRaw); err != nil {
+		panic(err)
+	}
+	w.mux = new(event.TypeMux)
+	w.mux.SimAttach(func(ev interface{}) {
+		// events emitted after the disk froze, or by a dead incarnation, never happened
+		if disk.Frozen() || w.inc != inc {
+			return
+		}
+		w.obMu.Lock()
+		w.outbox = append(w.outbox, ev)
+		w.obMu.Unlock()
+	})
+	if err = w.srv.StartMining(w.chain, inserter{w}, w.mux); err != nil {
+		panic("voterworld: StartMining: " + err.Error())
+	}
+	kit.Wait()
+	// the first context event was posted before the subscribers existed; hand it out in order
+	w.observe(w.drain(), nil)
+	for len(w.pending) > 0 {
+		w.deliverNext()
+	}
+}
+
+// restart: the process of the validator under test is gone; a new one starts on the durable
+// image of its disk. Nothing in memory survives: vote tallies, latches, caches, pending events.
+func (w *world) restart() {
+	old := w.srv
+	w.disk.Freeze()
+	w.inc++ // silences the dead incarnation's mux
+	done := make(chan struct{})
+	go func() {
+		defer close(done)
+		defer func() { recover() }()
+		old.Stop()
+		w.mux.Stop()
+	}()
+	kit.Wait()
+	w.drain()
+	w.pending, w.commits = nil, nil
+	d := time.Duration(100+w.c.Intn("down-ms", 3000)) * time.Millisecond
+	time.Sleep(d)
+	kit.Wait()
+	w.disk = w.disk.Restart()
+	w.mhSet, w.voterSet = false, false
+	w.visited = map[ctxKey]bool{}
+	w.or.forgetAll()
+	w.plan = nil
+	w.nRestarts++
+	w.afterFault = true
+	w.r.Logf("RESTART after %v on the durable image (life %d)", d, w.life+1)
+	w.r.FP("restart")
+	w.r.Probe("validator restarted")
+	w.boot()
+}
+
+// processFault injects (C02 part only) a crash/restart or a pause/resume of the validator under
+// test at a quiescent point, or arms a crash at its next disk write (= its next vote record,
+// voter.go:425, i.e. between the record and the gossip of the vote).
+func (w *world) processFault() bool {
+	cfg, c := w.cfg, w.c
+	if cfg.restart == 0 || w.nRestarts >= cfg.maxRestarts || w.armed || !c.Chance("process-fault", cfg.restart, 100) {
+		return false
+	}
+	switch c.Weighted("process-fault-kind", []int{2, 3, 3}) {
+	case 0:
+		// node.Pause/Resume (e.g. while the downloader syncs): Server.Resume re-enters the round
+		// at index 1 (ucon.go:263)
+		w.r.Fault("engine.pause-resume")
+		w.r.Logf("PAUSE/RESUME (engine was in %s)", w.engineCtx())
+		w.r.FP("resume")
+		w.nRestarts++
+		w.stimulus("pause", nil, func() { w.srv.Pause() })
+		w.stimulus("resume", nil, func() { w.srv.Resume() })
+		w.afterFault = true
+		w.plan = nil // the network moves on to another block for the re-entered context
+		return true
+	case 1:
+		w.r.Fault("crash.quiescent")
+		w.r.Logf("CRASH at a quiescent point (engine was in %s)", w.engineCtx())
+		w.restart()
+		return true
+	default:
+		w.armed = true
+		w.disk.CrashAt(w.disk.LogLen() + 1)
+		w.r.Logf("(crash armed at the next disk write)")
+		return false
+	}
 }
 
 // inserter is the engine's consensus.MineInserter: what ProtocolManager does with a block the
@@ -481,6 +598,7 @@ func (w *world) observe(evs []interface{}, in *voteTruth) {
 		switch e := ev.(type) {
 		case ucon.SendMessageEvent:
 			if k := ucon.MsgCodeToVoteType(e.Code); k != ucon.VoteNone {
+				w.hist.emitted(k, e.Payload)
 				o.ownVote(k, e.Payload)
 			}
 		case ucon.CommitEvent:
@@ -533,12 +651,13 @@ const (
 )
 
 type action struct {
-	kind actKind
-	spec voteSpec
-	dup  *voteTruth
-	prop *proposal
-	desc string
-	byz  string // fault kind to count when the action fires ("" = honest)
+	kind  actKind
+	spec  voteSpec
+	dup   *voteTruth
+	prop  *proposal
+	index uint32 // aNetBlock: the round index the network committed at
+	desc  string
+	byz   string // fault kind to count when the action fires ("" = honest)
 }
 
 func (w *world) exec(a *action) {
@@ -584,8 +703,16 @@ func (w *world) exec(a *action) {
 	case aTick:
 		w.tick()
 	case aNetBlock:
-		blk := w.fg.sealNetwork(a.prop, a.prop.index, append([]*chainkit.ValKey{w.me}, w.peers...))
-		r.Logf("network block %d %s arrives (committed elsewhere)", blk.NumberU64(), hname(blk.Hash()))
+		blk := w.fg.sealNetwork(a.prop, a.index, append([]*chainkit.ValKey{w.me}, w.peers...))
+		// harness self-check: what the forge seals must be what the real verifier accepts, else
+		// later header updates are judged against a header that never was valid
+		if verr := w.or.verifyForged(blk); verr != nil {
+			// all honest votes together miss a quorum: nobody can have committed this block
+			r.Logf("network block %d %s: the whole network's votes do not make a valid seal (%v); time passes instead", blk.NumberU64(), hname(blk.Hash()), verr)
+			w.tick()
+			return
+		}
+		r.Logf("network block %d %s arrives (committed elsewhere at index %d)", blk.NumberU64(), hname(blk.Hash()), a.index)
 		r.FP("netblock")
 		if err := w.chain.appendBlock(blk); err != nil {
 			panic(err)
